@@ -74,8 +74,8 @@ class Pi(schemes.interface.inverted_index_sse.InvertedIndexSSE):
             cipher_list = [self.config.ske.Encrypt(Ki, identifier) for identifier in padded_database[keyword]]
             di = b"".join(cipher_list)
 
-            # math.ceil(t / 8) --> max_bytes represent |DB(w)|
-            ni_prime = self.config.ske.Encrypt(Ki_prime, int_to_bytes(ni, math.ceil(t / 8)))
+            # math.ceil((t + 1) / 8) --> max_bytes represent |DB(w)|, which ranges over 1..2^t (t + 1 bits)
+            ni_prime = self.config.ske.Encrypt(Ki_prime, int_to_bytes(ni, math.ceil((t + 1) / 8)))
             T_list[pi].append((li, di))
             S.append((li_prime, ni_prime))
 
